@@ -165,6 +165,16 @@ def declare_common(spec):
         h = z3.Const('h_al', Handler.sort)
         X.assume(forall([h], z3.Implies(new[h], old[h]), patterns=[new[h]]))
         X.ghost['alive'] = new
+        # T7 for EVERY dispatcher: a handler that died is registered nowhere
+        for sn, kl in list(spec.sort_classes.items()):
+            kk, FT = X.field_decl(sn, '_handlers')
+            if kk is None:
+                continue
+            leaves = X.heap_leaves(sn, '_handlers', FT)
+            dd = z3.Const('d_al', usort(sn))
+            r = z3.Const('r_al', Ref.sort)
+            X.assume(forall([dd, r], z3.Implies(leaves[0][dd][r], new[T.referent(r)]),
+                            patterns=[leaves[0][dd][r]]))
     spec.env_havocs.append(shrink_alive)
     spec.ghost_decls['alive'] = shrink_alive
 
